@@ -303,6 +303,7 @@ func (v *vdrRun) expectState(f *core.VerifVdrFork, removed []string, rep *vdrRep
 }
 
 func (v *vdrRun) modelChecks() {
+	v.relocReplay()
 	v.modelChecksOn(v.preFinal, v.postKill, "final VDRKill", true)
 }
 
